@@ -218,6 +218,28 @@ def double_cases(rng, n):
     return out
 
 
+def inter_cases(rng, n):
+    """intermediate references one past / far past the last valid target (errors, catalogue stream) and on
+    the last valid target (well-formed, soundness stream), in sections that also hold `> text` blocks"""
+    bad, good = [], []
+    cfgs = [(cat.X_INTER, "e"), (cat.X_COMPAT, "b"), (cat.X_ALL, "b")]
+    kinds = list(cat.INTER_KINDS)
+    for i in range(n):
+        kind = kinds[i % 4]
+        how = ["boundary", "boundary", "far", "valid"][(i // 4) % 4]
+        ext, conv = cfgs[i % 3]
+        sp = cat.inter_boundary_splice(rng, ext, kind, how)
+        if sp is None:
+            continue
+        if how == "valid":
+            good.append({"kind": "sound", "text": sp["text"], "ext": ext, "conv": conv, "old_style": sp["old_style"],
+                         "profile": "intermediate-reference-last-valid-target", "tags": sp["tags"]})
+        else:
+            sp.update({"kind": "catalog", "entry": "inter_%s_%s" % (how, kind), "ext": ext, "conv": conv, "sev": "e"})
+            bad.append(sp)
+    return bad, good
+
+
 def catalog_cases(rng, per):
     out = []
     for en in cat.CATALOG:
@@ -280,6 +302,9 @@ def run(rep, tier, seed):
     sound = [c for c in corpus if c["kind"] == "sound"] + sound_cases(rng, 6000 if quick else 60000)
     sound += sound_ref_cases(rng, 2400 if quick else 20000)
     catalog = [c for c in corpus if c["kind"] == "catalog"] + catalog_cases(rng, 30 if quick else 220)
+    ibad, igood = inter_cases(rng, 2400 if quick else 24000)
+    catalog += ibad
+    sound += igood
     doubles = double_cases(rng, 1600 if quick else 16000)
     bases = []
     seen_base = set()
@@ -339,7 +364,7 @@ def run(rep, tier, seed):
             pe["cases"] += 1
             pe["configs"].add("%d/%s" % (c["ext"], c["conv"]))
             for t in c["tags"]:
-                if not t.startswith("lead="):
+                if not t.startswith(("lead=", "text-blocks-before=", "steps-before=", "sections-before=")):
                     pe["placements"].add(t)
                     placements[t] = placements.get(t, 0) + 1
             v = mon_complete(j, c["sev"], c["a"], c["b"])
@@ -428,7 +453,9 @@ def run(rep, tier, seed):
                 "the inheritable modifiers of their definition (explicit, and implicit in `[duplicate]: ref` mode) "
                 "are spliced the same way and must be diagnostic-free, and so are components-mode lists ([mode]/"
                 "[define]: components/ingredients) separated by non-alphanumeric punctuation, then switched back; "
-                "double splices put an analysis-stage and a "
+                "intermediate references `(N)`, `(~N)`, `(=N)`, `(=~N)` with N exactly one past / far past the "
+                "number of previous steps / sections are spliced into sections that also hold `> text` blocks "
+                "(error expected), N on the last valid target is a well-formed control; double splices put an analysis-stage and a "
                 "parse-stage construct into one recipe (analysis one first, and the converse as control): no output, "
                 "only Parse-stage diagnostics, the parse error on its construct; distinct_nontrivial = distinct "
                 "spliced texts + distinct well-formed texts containing a component"
@@ -450,6 +477,10 @@ def run(rep, tier, seed):
                            "parse_construct_first_control": counts["double_parse_first"],
                            "parse_error_on_its_construct": counts["double_parse_error_found"],
                            "distinct_construct_pairs": len(double_pairs)},
+        "intermediate_reference_boundary": {
+            "out_of_range_cases": len(ibad), "with_text_blocks_before": sum(1 for c in ibad if c["texts_before"] > 0),
+            "exactly_one_past_the_last_target": sum(1 for c in ibad if "inter-boundary" in c["tags"]),
+            "last_valid_target_controls": len(igood)},
         "validity_equation_cases": len(allc) - panics, "report_vs_parser_diag_cases": glue_cases,
         "panicking_cases_skipped": panics,
         "correspondence_cases": lev_cases, "correspondence_disagreements": len(dis),
